@@ -10,6 +10,7 @@ import (
 	"encoding/json"
 	"errors"
 	"fmt"
+	"math"
 	"reflect"
 	"sort"
 	"strings"
@@ -427,6 +428,12 @@ func (c *cond) args(tm *model) []interface{} {
 		return []interface{}{probe.Interface()}
 	case "inline-expr":
 		return []interface{}{clause.Gte{Column: clause.Column{Name: "tag"}, Value: c.K}}
+	case "inline-abs":
+		// true for every row, but SQLite's abs() raises "integer overflow" on
+		// math.MinInt64 while the rows are stepped through (see poison rows)
+		return []interface{}{"abs(tag) >= ?", 0}
+	case "scope-abs":
+		return []interface{}{func(db *gorm.DB) *gorm.DB { return db.Where("abs(tag) >= ?", 0) }}
 	case "inline-pk":
 		return []interface{}{append([]int64(nil), c.IDs...)}
 	case "scope-select":
@@ -751,6 +758,73 @@ func (l load) feedRoles(f *family) map[role]bool {
 	return out
 }
 
+// absModels lists the models whose rows a condition with abs(tag) is evaluated on.
+func (l load) absModels(f *family) map[string]bool {
+	out := map[string]bool{}
+	isAbs := func(c *cond) bool { return c != nil && (c.Form == "inline-abs" || c.Form == "scope-abs") }
+	root := f.m(l.Root)
+	if l.Mode == "assoc-find" {
+		if isAbs(l.Cond) {
+			out[root.rel(l.Assoc).target] = true
+		}
+		return out
+	}
+	for _, p := range l.Preloads {
+		if !isAbs(p.Cond) {
+			continue
+		}
+		if p.Path == clause.Associations {
+			for _, r := range root.rels {
+				out[r.target] = true
+			}
+			continue
+		}
+		_, _, tm := pathTarget(f, root, p.Path)
+		out[tm.name] = true
+	}
+	return out
+}
+
+// stepFailure reports whether err is the failure an abs condition raises on a
+// poison row of one of the models it is evaluated on: the load reported the
+// broken-off result instead of attaching a part of it, which is what the
+// property allows ("an error, or all rows").
+func stepFailure(g *graph, l load, err error) bool {
+	if err == nil || !strings.Contains(err.Error(), "integer overflow") {
+		return false
+	}
+	for name := range l.absModels(g.fam) {
+		for _, r := range g.rows[name] {
+			if int64(tagOf(r)) == math.MinInt64 {
+				return true
+			}
+		}
+	}
+	return false
+}
+
+// liveModels: the models whose rows must not be soft-deleted for this load (the
+// targets of association Joins under a root Unscoped(), see genLoad).
+func (l load) liveModels(f *family) map[string]bool {
+	out := map[string]bool{}
+	if !l.Unscoped || l.Mode != "query" {
+		return out
+	}
+	root := f.m(l.Root)
+	js := append([]joinSpec(nil), l.Joins...)
+	if l.Sibling != nil {
+		js = append(js, *l.Sibling)
+	}
+	for _, j := range js {
+		r := root.rel(j.Rel)
+		out[r.target] = true
+		if j.Nested != "" {
+			out[f.m(r.target).rel(j.Nested).target] = true
+		}
+	}
+	return out
+}
+
 // ---------------------------------------------------------------- the data graph
 
 type graph struct {
@@ -982,6 +1056,8 @@ func genGraph(rt *rapid.T, f *family, l load) *graph {
 	// crowd: now and then the child tables are large and their owners few, so that
 	// one parent gets more children than the initial capacity of its slice (10)
 	// and a child query returns more rows than the scanner's first allocation (20)
+	live := l.liveModels(f)
+	poison := len(l.absModels(f)) > 0 && rapid.Bool().Draw(rt, "poison")
 	crowd := rapid.IntRange(0, 9).Draw(rt, "crowd") == 0
 	g.crowd = crowd
 	// phase 1: primary keys of the entity tables
@@ -1022,6 +1098,11 @@ func genGraph(rt *rapid.T, f *family, l load) *graph {
 				setVal(field(r, fn), pk[j])
 			}
 			field(r, "Tag").SetInt(int64(rapid.IntRange(0, 3).Draw(rt, "tag")))
+			if poison && rapid.IntRange(0, 5).Draw(rt, "poison-row") == 0 {
+				// a row on which abs(tag) fails at step time: a query with an abs
+				// condition that reaches it breaks off in the middle of its result
+				field(r, "Tag").SetInt(math.MinInt64)
+			}
 			for _, fn := range m.alt {
 				// a referenced non-key column: duplicates are likely, "" (gorm: no value) possible
 				if v := rapid.SampledFrom([]string{"", "a", "a", "b", "a_b", "nil", "0", "日本"}).Draw(rt, fn); v != "" {
@@ -1034,7 +1115,7 @@ func genGraph(rt *rapid.T, f *family, l load) *graph {
 					setVal(lf, val{Str: true, S: v})
 				}
 			}
-			if m.soft && rapid.IntRange(0, 9).Draw(rt, "deleted") < 3 {
+			if m.soft && rapid.IntRange(0, 9).Draw(rt, "deleted") < 3 && !live[m.name] {
 				field(r, "DeletedAt").Set(reflect.ValueOf(gorm.DeletedAt{Time: testdb.FixedNow, Valid: true}))
 			}
 			g.rows[m.name] = append(g.rows[m.name], r)
@@ -1831,7 +1912,7 @@ func referenceRows(g *graph, l load) []string {
 		if l.Shape == "struct" && i != l.Pick {
 			continue
 		}
-		if l.Shape != "struct" && tagOf(p) < l.MinTag {
+		if l.Shape != "struct" && l.MinTag > 0 && tagOf(p) < l.MinTag {
 			continue
 		}
 		if !l.Unscoped && isDeleted(root, p) {
@@ -1963,6 +2044,9 @@ func checkQueryWith(d *testdb.DB, g *graph, l load, run func(dest reflect.Value)
 				return fmt.Sprintf("load returned ErrRecordNotFound, reference gives rows %v", want), false
 			}
 			return "", false
+		case stepFailure(g, l, err):
+			evid.Class("outcome:step-failure-reported")
+			return "", false
 		default:
 			return fmt.Sprintf("load failed: %v", err), false
 		}
@@ -2045,7 +2129,7 @@ func checkAssocFind(d *testdb.DB, g *graph, l load) (string, bool) {
 			if i == l.Pick {
 				chosen = append(chosen, p)
 			}
-		} else if tagOf(p) >= l.MinTag {
+		} else if l.MinTag <= 0 || tagOf(p) >= l.MinTag {
 			chosen = append(chosen, p)
 		}
 	}
@@ -2102,7 +2186,10 @@ func checkAssocFind(d *testdb.DB, g *graph, l load) (string, bool) {
 		args = l.Cond.args(tm)
 		s.conds = []*cond{l.Cond}
 	}
-	if err := as.Find(out.Interface(), args...); err != nil {
+	if err := as.Find(out.Interface(), args...); stepFailure(g, l, err) {
+		evid.Class("outcome:step-failure-reported")
+		return "", false
+	} else if err != nil {
 		return fmt.Sprintf("Association(%s).Find failed: %v", l.Assoc, err), false
 	}
 	// reference: every child row that belongs to one of the (distinct) parents;
@@ -2199,6 +2286,14 @@ func classesOf(g *graph, l load) []string {
 	}
 	if l.Unscoped {
 		set["scope:root-unscoped"] = true
+		if len(l.Joins) > 0 {
+			set["scope:root-unscoped-with-joins"] = true
+			for _, p := range l.Preloads {
+				if parts := relSegments(p.Path); len(parts) >= 2 && isJoined(l, parts[0]) {
+					set["scope:root-unscoped-preload-under-joined"] = true
+				}
+			}
+		}
 	}
 	if g.crowd {
 		set["size:crowded-children"] = true
@@ -2399,6 +2494,9 @@ func classesOf(g *graph, l load) []string {
 	// data features
 	for _, m := range f.models {
 		for _, r := range g.rows[m.name] {
+			if !m.isJoin && int64(tagOf(r)) == math.MinInt64 {
+				set["data:poison-row-for-abs-condition"] = true
+			}
 			if isDeleted(m, r) {
 				set["data:soft-deleted-row"] = true
 				if m.isJoin {
@@ -2507,9 +2605,9 @@ func genCondFor(rt *rapid.T, label string, forms []string, r *rel, tm *model) *c
 }
 
 var (
-	preloadForms = []string{"inline-gte", "inline-in", "inline-map", "inline-struct", "inline-expr", "inline-pk", "scope-ne", "scope-gte-order", "scope-unscoped", "scope-select"}
-	assocForms   = []string{"inline-gte", "inline-in", "inline-map", "inline-expr", "scope-ne", "scope-gte-order", "scope-unscoped"} // model-free forms (clause.Associations)
-	inlineForms  = []string{"inline-gte", "inline-in", "inline-map", "inline-struct", "inline-expr", "inline-pk"}
+	preloadForms = []string{"inline-abs", "scope-abs", "inline-gte", "inline-in", "inline-map", "inline-struct", "inline-expr", "inline-pk", "scope-ne", "scope-gte-order", "scope-unscoped", "scope-select"}
+	assocForms   = []string{"inline-abs", "scope-abs", "inline-gte", "inline-in", "inline-map", "inline-expr", "scope-ne", "scope-gte-order", "scope-unscoped"} // model-free forms (clause.Associations)
+	inlineForms  = []string{"inline-abs", "inline-gte", "inline-in", "inline-map", "inline-struct", "inline-expr", "inline-pk"}
 	onForms      = []string{"on-gte", "on-struct"}
 )
 
@@ -2565,10 +2663,12 @@ func genLoad(rt *rapid.T, f *family, wide bool) load {
 		l.Finisher = rapid.SampledFrom([]string{"", "first", "last"}).Draw(rt, "finisher")
 	}
 	used := map[string]bool{}
-	// association joins (to-one relations); not combined with a root Unscoped():
-	// whether Unscoped() lifts the soft-delete filter of a joined table is not
-	// stated by the property (the ON clause keeps it) - outside the domain.
-	if len(toOne) > 0 && !l.Unscoped && rapid.IntRange(0, 9).Draw(rt, "joins") < 4 {
+	// association joins (to-one relations). With a root Unscoped() the rows of
+	// the joined tables are all kept live by genGraph (liveModels): whether
+	// Unscoped() lifts the soft-delete filter of a JOINED table is not stated
+	// (the ON clause keeps it), but what is preloaded BELOW the joined relation is
+	// an Unscoped preload like any other and may hold soft-deleted rows.
+	if len(toOne) > 0 && rapid.IntRange(0, 9).Draw(rt, "joins") < 4 {
 		n := rapid.IntRange(1, 2).Draw(rt, "joins.n")
 		for i := 0; i < n && i < len(toOne); i++ {
 			name := rapid.SampledFrom(toOne).Draw(rt, "join.rel")
@@ -2779,36 +2879,6 @@ func genLoad(rt *rapid.T, f *family, wide bool) load {
 			evid.Excluded("assoc-inline-conds-concat")
 		}
 	}
-	// listed finding assoc-embedded-dup: clause.Associations registers a relation
-	// that lives in an embedded struct twice - under its own name (Relations) and
-	// under the embedded struct's name (EmbeddedRelations) - and it is preloaded
-	// twice. (a) an inline condition given to clause.Associations reaches that
-	// relation's query twice (append(preloads[name], associationsConds...)):
-	// SQLite ignores surplus scalar arguments of a plain query, a prepared statement
-	// (or an argument-counting driver) fails with "expected 2 arguments, got 4",
-	// and a slice argument ("tag IN ?") fails on the plain query too; (b) a nested
-	// path spelled through the embedded name ("Extra.Mentor.Pets") is loaded first
-	// and then wiped by the second, un-nested preload of "Mentor".
-	hasAssoc := false
-	for _, p := range l.Preloads {
-		hasAssoc = hasAssoc || p.Path == clause.Associations
-	}
-	if hasAssoc && f.name == "A" && l.Root == "AUser" && harness.OpenClass("C11", "assoc-embedded-dup") {
-		for i := range l.Preloads {
-			p := &l.Preloads[i]
-			switch {
-			case p.Path == clause.Associations && p.Cond != nil && p.Cond.Form == "inline-in":
-				p.Cond = nil
-				evid.Excluded("assoc-embedded-dup")
-			case p.Path == clause.Associations && p.Cond != nil && p.Cond.Form == "inline-gte" && l.PrepareStmt:
-				l.PrepareStmt = false
-				evid.Excluded("assoc-embedded-dup")
-			case strings.HasPrefix(p.Path, "Extra.") && len(relSegments(p.Path)) > 1:
-				p.Path = strings.TrimPrefix(p.Path, "Extra.")
-				evid.Excluded("assoc-embedded-dup")
-			}
-		}
-	}
 	for i := range l.Preloads {
 		if underJoined && l.Preloads[i].Path == clause.Associations && l.Preloads[i].Cond != nil {
 			l.Preloads[i].Cond = nil
@@ -2840,7 +2910,7 @@ func knownClass(g *graph, l load) string {
 		if len(r.own) >= 2 {
 			any := false
 			for i, p := range g.rows[root.name] {
-				if (l.Shape == "struct" && i == l.Pick) || (l.Shape != "struct" && tagOf(p) >= l.MinTag) {
+				if (l.Shape == "struct" && i == l.Pick) || (l.Shape != "struct" && (l.MinTag <= 0 || tagOf(p) >= l.MinTag)) {
 					if !tupleOf(p, r.own).allBlank() {
 						any = true
 					}
@@ -2908,7 +2978,7 @@ func wideKey(m *model, i int) tuple {
 // genWide builds a graph with n users (n > 1000: more distinct parent keys than
 // fit one batch of any batched child lookup) and a few dozen children whose
 // owners are drawn mostly from the users beyond the first thousand.
-func genWide(rt *rapid.T, f *family, n int) *graph {
+func genWide(rt *rapid.T, f *family, n int, live map[string]bool) *graph {
 	g := &graph{fam: f, rows: map[string][]row{}}
 	var sb strings.Builder
 	fmt.Fprintf(&sb, "wide group %s users=%d", f.name, n)
@@ -2919,7 +2989,7 @@ func genWide(rt *rapid.T, f *family, n int) *graph {
 			setVal(field(r, m.pk[j]), v)
 		}
 		field(r, "Tag").SetInt(int64(i % 4))
-		if m.soft && i%4 == 3 {
+		if m.soft && i%4 == 3 && !live[m.name] {
 			field(r, "DeletedAt").Set(reflect.ValueOf(gorm.DeletedAt{Time: testdb.FixedNow, Valid: true}))
 		}
 		if lf := reflect.Indirect(r).FieldByName("Label"); lf.IsValid() && i%2 == 1 {
@@ -3037,7 +3107,7 @@ func TestC11Wide(t *testing.T) {
 		}
 		n := rapid.IntRange(1001, max).Draw(rt, "users")
 		l := genLoad(rt, f, true)
-		g := genWide(rt, f, n)
+		g := genWide(rt, f, n, l.liveModels(f))
 		if class := knownClass(g, l); class != "" && harness.OpenClass("C11", class) {
 			evid.Excluded(class)
 			return
@@ -3133,6 +3203,7 @@ func TestC11WitnessAssocInlineCondsConcat(t *testing.T) {
 	}})
 }
 
+// Regression witness of the fixed finding assoc-embedded-dup (93c08b1; passes now).
 // Preload(clause.Associations, "tag >= ?", 0) on a model with a relation inside
 // an embedded struct (AUser.Extra.Mentor), through a prepared-statement session:
 // the condition's arguments reach the Mentor query twice.
